@@ -352,4 +352,5 @@ def decoders_functional():
 
 
 def obligations():
-    return order_typing() + persistent_state() + decoders_functional() + confirmations()
+    from tx import p_c13
+    return order_typing() + persistent_state() + decoders_functional() + confirmations() + [dict(o, id="history/" + o["id"]) for o in p_c13.history()]
